@@ -482,7 +482,7 @@ def lnFinishP (c : Ctx) (d : Cell) (ed : ED) (tmp1 resAdjust : Dec) : Prog Res :
   if f.1.failed then retErr {} f.1.errOf                    -- if err := ed.Err(); err != nil { return 0, err }
   else do
     let res ← roundP c d (.const f.2) true                  -- res := c.round(d, &tmp1)
-    retFlags c (res ||| cInexact)                           -- res |= Inexact; return c.goError(res)
+    retFlags c (res ||| cInexact ||| cRounded)                           -- res |= Inexact; return c.goError(res)
 
 /-- `Context.Ln`; the tape supplies the float64 starting estimate of Halley's iteration (and the decisions of the
 `Exp` calls inside it) -/
@@ -523,7 +523,7 @@ def log10P (c : Ctx) (d : Cell) (x : Src) (tape : Tape) : Prog (Option (Res × T
         if m.2.1 != .none then retT ({}, m.2.1, 0) tape
         else do
           let rr ← roundP c d (.cell d) true                -- res |= c.round(d, d)
-          let res := cInexact ||| m.1 ||| rr
+          let res := (cInexact ||| cRounded) ||| m.1 ||| rr
           retT (res, goError c.traps res, 0) tape
 
 /-! ## `Pow` -/
@@ -582,7 +582,7 @@ def powFracP (c nc : Ctx) (d : Cell) (x zs : Src) (frac tmp0 : Dec) (neg : Bool)
     else do
       let rr ← roundP c d (.const s5.2) true                -- res |= c.round(d, &tmp)
       wrNeg d neg                                           -- d.Negative = neg
-      let res := res ||| rr ||| cInexact
+      let res := res ||| rr ||| cInexact ||| cRounded
       retT (res, goError c.traps res, 0) tape
 
 /-- `Context.Pow` after `nc.integerPower(z, x, …)`: `zs` points to `z`, `ip` is what `integerPower` returned, `qfl` the
